@@ -148,15 +148,24 @@ def check(ctx):
 
     def v1(s):
         r = render(n1.site_expr(s))
-        delivered = bool(lib.count_range(n1, [0], [s.bb], lib.bbs(notify)) == (1, 1))
         if r == "std::option::Option::Some{0: p%d}" % i_ev:
-            return "give-back" + ("+deliver" if delivered else "")
+            return "give-back"
         if r == "std::option::Option::None{}":
-            return "consume" + ("+deliver" if delivered else "")
+            return "consume"
         return "?" + r
     lib.check_cells(ctx, "notify_one", "table", n1, res, v1, am, {"ready": ["Pending", "Ready"], "res": ["Ok", "Err"]},
-                    lambda a: "give-back" if a["ready"] == "Pending" else ("consume+deliver" if a["res"] == "Ok" else "consume"),
-                    "%s:%d" % (n1.file, n1.line))
+                    lambda a: "give-back" if a["ready"] == "Pending" else "consume", "%s:%d" % (n1.file, n1.line))
+    # delivery: exactly once when the connection is ready, never otherwise
+    n1rets = n1.return_blocks()
+    ctx.floor("notify_one", "notify_handler call", notify, 1)
+    for lab, atom, want in (("Ok", "res", (1, 1)), ("Err", "res", (0, 0)), ("Pending", "ready", (0, 0))):
+        rx = re.compile(am[1][0] if atom == "res" else am[0][0])
+        edges = S.edges_of(n1, lambda c, r: rx.search(r) is not None, {lab})
+        ctx.ob("notify_one", "floor:%s edge" % lab, len(edges) >= 1, nontrivial=False, msg=str(sorted(edges)))
+        for _, tg in sorted(edges):
+            got = lib.count_range(n1, [tg], n1rets, lib.bbs(notify))
+            ctx.ob("notify_one", "table/delivery when poll_ready == %s" % lab, got == want, "%s:%d" % (n1.file, n1.line),
+                   "notify_handler calls on the %s edge: %s (expected %s)" % (lab, got, want))
     for s in notify:
         ctx.ob("notify_one", "delivers the given event", render(n1.site_expr(s)) == "libp2p_swarm::connection::pool::EstablishedConnection::notify_handler(p%d, p%d)" % (i_conn, i_ev),
                s.loc(), render(n1.site_expr(s)))
